@@ -237,10 +237,15 @@ func corr(seed uint64, n int, nfile int, kinds []string, repo string) {
 		}
 	}
 	// structured valid variants (child permutations of sample entries, ...) that consist of modelled types
-	for _, set := range [][][]byte{bx.SampleEntryVariants(), bx.SgpdUuidVariants(), bx.EsdsVariants()} {
+	for _, set := range [][][]byte{bx.SampleEntryVariants(), bx.SgpdUuidVariants(), bx.EsdsVariants(), bx.Stage5Variants()} {
 		for k, b := range set {
 			if k%4 == int(seed%4) || n > 50000 {
 				add(b, "structured")
+				if len(cases)%2 == 0 {
+					for _, m := range bx.Mutate(r, b, 1) {
+						add(m, "structured-mut")
+					}
+				}
 			}
 		}
 	}
@@ -356,7 +361,7 @@ func search(seed uint64, n int, dc string, repo string, mode string, kinds strin
 		cases = append(cases, cs{b, "gen"})
 	}
 	// structured VALID variants of boxes with ordered / optional sub-structures: well-formed inputs
-	for _, set := range [][][]byte{bx.EsdsVariants(), bx.SampleEntryVariants(), bx.SgpdUuidVariants()} {
+	for _, set := range [][][]byte{bx.EsdsVariants(), bx.SampleEntryVariants(), bx.SgpdUuidVariants(), bx.Stage5Variants()} {
 		for _, b := range set {
 			cases = append(cases, cs{b, "gen"})
 			if len(cases)%3 == 0 {
